@@ -156,8 +156,10 @@ def run(ctx: core.Ctx):
         for sep in (" ", ",", ";", "\t"):
             n = rng.choice([1, 2, 3])
             v = rng.choice([9, 27, 30, 64])
-            check_export(ctx, fl, engines[n], n, v, "all", roots[(v, n)], decimals=dec, sep=sep, headers=rng.random() < 0.7,
-                         inputs=rng.random() < 0.8, outputs=rng.random() < 0.8)
+            ins, outs = rng.random() < 0.8, rng.random() < 0.8
+            if not ins and not outs:
+                outs = True         # a dataset of no columns at all has no defined text: at least one of the two switches stays on
+            check_export(ctx, fl, engines[n], n, v, "all", roots[(v, n)], decimals=dec, sep=sep, headers=rng.random() < 0.7, inputs=ins, outputs=outs)
     # reader contents
     e = engines[2]
     data = ["0.25 1.0", "0.5 -1", " 0.75 2.5 ", "1.0 3.0"]
